@@ -160,7 +160,7 @@ T_HOST = [
     "[::1:2:3:4:5:6:7:8]", "[::1:2:3:4:5:6:7]", "[:1]", "[1:]", "[1::2::3]", "[12345::]", "[g::]", "[::ffff:1.2.3.4]", "[1.2.3.4]", "[]",
     "[::1]x", "x[::1]", "a[b]c", "[::1][::2]", "a.com%zone", "a%41.com", "A%4a.Com", "xn--tlrama-bvab.fr", "XN--TLRAMA-BVAB.fr", "a..b", ".",
     "a.com.", "a b", "a\tb.com", "a\nb", "a\x00b", "a\x7fb", "a\\b", "日本.jp", "[::]", "[:::]", "[::1::]", "[0:0:0:0:0:0:0:0]", "[00000::]",
-    "[ABCD:ef01::]", "[::1 ]", "[ ::1]", "localhost", "1.2.3.4", "a]b", "a[b", "[v1.x]]", "[[::1]]",
+    "[ABCD:ef01::]", "[::1 ]", "[ ::1]", "localhost", "1.2.3.4", "a]b", "a[b", "[v1.x]]", "[[::1]]", "[v1.[]", "[v1.a[b]", "[::1%a[b]",
 ]
 T_PORT = [
     None, None, None, "", "80", "080", "0", "65535", "65536", "99999999999999999999", "x", "8x", "-1", "+1", "١٢", "²", "８０",
